@@ -125,7 +125,7 @@ CLAIMED = {
         text=("Lean theorems for every dimension: with the column calculus D1 (sum of single column replacements = tr(adj M N)) and D2 (ordered pairs "
               "of distinct columns = det M (tr tr - tr of product), proved via det(1 + U V) = det(1 + V U)), the Green's-function energy formula of "
               "uhf equals the mixed estimator written with explicit column replacements, including spin-dependent h1; rhf with restricted walkers "
-              "equals the unrestricted formula on [W, W] and sees exactly the spin average of h1. NOCI's sum_d c_d ov_d E_d / sum_d c_d ov_d is the mixed estimator of the combined bra (linearity). Tied to the code by rhf/uhf energies vs the Lean "
+              "equals the unrestricted formula on [W, W] and sees exactly the spin average of h1. NOCI's sum_d c_d ov_d E_d / sum_d c_d ov_d is the mixed estimator of the combined bra (linearity). Central second differences of any polynomial p satisfy p(e) - 2p(0) + p(-e) = e^2 (2 p_2 + e^2 q(e)) with q a polynomial (the 'converges quadratically in the step' clause of the finite-difference kinds, whose differenced overlaps are polynomials in the step). Tied to the code by rhf/uhf energies vs the Lean "
               "model at Q(i) and by all 12 classes / entry points vs the Fock-space estimator (spin-dependent h1 where the property lists it), plus "
               "the eps^2 convergence of the finite-difference kinds."),
         design_ref="DESIGN.md §5/C02",
